@@ -1,5 +1,6 @@
 CONSTANTS
-  MaxOps = 6
+  MaxOps = 4
+  MaxReq = 2
   Free = TRUE
 SPECIFICATION Spec
 INVARIANT Emit
